@@ -42,6 +42,18 @@ Theorem C12_conflict_iff : forall c e prof filt ms ts,
 Proof. exact conflict_iff. Qed.
 Print Assumptions C12_conflict_iff.
 
+(* Provenance: every insert carries a non-empty list of ids of modules the profile selected, so the
+   two inserts of [C12_conflict_iff] are outputs of (one or two) SELECTED modules *)
+Theorem C12_provenance : forall c e prof filt ms ts em,
+  select_modules c prof = Some ms -> selected_targets c filt = Ok ts ->
+  In (Emit em) (all_steps e ms ts) ->
+  e_ids em <> [] /\ forall i, In i (e_ids em) -> exists m, In m ms /\ m_id m = i.
+Proof.
+  intros c e prof filt ms ts em _ _ H. unfold all_steps in H. apply in_flat_map in H as [t [_ H]].
+  exact (adapter_ids e ms t em H).
+Qed.
+Print Assumptions C12_provenance.
+
 (* Without any validity hypothesis: a successful render never hides a conflict (and reached no
    invalid module), i.e. two differing outputs for one path can never both be "accepted". *)
 Theorem C12_ok_no_conflict : forall c e prof filt ms ts D R,
